@@ -17,7 +17,7 @@ from .instr import InstrShape
 from . import c02, c06, c16, c17, isa_templates
 
 ID = 'C15'
-BUDGET_S = {'quick': 170, 'thorough': 3600}
+BUDGET_S = {'quick': 240, 'thorough': 3600}
 SHAPE_WALL_S = {'quick': 120, 'thorough': 900}
 STUBS = list(_BASE_STUBS) + [
     '`set` as built in ' + ', '.join(m.replace('bespokeasm.assembler.', '') for m in shims.NONDET_SET_MODULES)
@@ -171,4 +171,7 @@ def shapes(tier, seed):
         d = det(s)
         if d is not None:
             out.append(d)
+    # the shapes written for this property first (cheap and the most telling), the borrowed ones after them
+    own = ('preprocessor-symbols', 'mnemonics-containing', 'several-files', 'rej:')
+    out.sort(key=lambda sh: 0 if any(k in sh.sid for k in own) else 1)
     return out
